@@ -41,8 +41,22 @@ Theorem C07_nonvacuous :
   (wf_replay ex_r10 = true /\ res_is_ok (game_start (r_start ex_r10)) = true /\ finished ex_r10 = true).
 Proof. exact (conj ex_r37_wf ex_r10_wf). Qed.
 
+From Peppi Require Import Model.Json Model.Slpp Gen.SlppEntries Proofs.SlppLayout.
+(* ---- the .slpp half through the regenerated entry tables: the writer's entries in order, the reader's arms, and that the arm which
+   stops the reader is the LAST entry the writer emits (so that no cut before the end of the archive can leave a complete-looking
+   prefix containing it) ---- *)
+Theorem C07_written_entries_from_source : forall enc_peppi enc_meta enc_start enc_end enc_frames c g es,
+  slpp_write enc_peppi enc_meta enc_start enc_end enc_frames c g = Ok es ->
+  map fst es = written_names (is_some (g_end (sg_game g))) (is_some (g_gecko (sg_game g))) /\
+  map (fun x => sb (fst x)) (filter snd slpp_read_names) = [last (map fst es) []].
+Proof. exact (fun ep em es_ ee ef c g es H => conj (slpp_write_entries_from_source ep em es_ ee ef c g es H) (slpp_last_entry_from_source ep em es_ ee ef c g es H)). Qed.
+Theorem C07_read_names_from_source : forall p, kind_of p = kind_of_tbl slpp_read_targets p.
+Proof. exact slpp_read_names_from_source. Qed.
+
 Print Assumptions C07_read_extends.
 Print Assumptions C07_truncated_full.
 Print Assumptions C07_truncated_skip.
 Print Assumptions C07_slpp_cut_rejected.
 Print Assumptions C07_nonvacuous.
+Print Assumptions C07_written_entries_from_source.
+Print Assumptions C07_read_names_from_source.
